@@ -15,11 +15,13 @@ def build_shim(B):
     return so
 
 
-def job_script(d, bursts, exitcode=0, sig=0, pad=0, linger=0, pipeline=False):
+def job_script(d, bursts, exitcode=0, sig=0, pad=0, linger=0, pipeline=False, stopcont=False):
     """sh script writing numbered tokens: bursts = [(stream, count)...]; token line = 'O00001' + pad x 'x'"""
     L = ['#!/bin/sh', 'echo start >> %s/starts' % d, 'pwd > %s/pwd; umask > %s/umask; echo "$0" > %s/shell' % (d, d, d), 'cat > %s/stdin' % d,
          'P=$(printf "%%%ds" "" | tr " " x)' % pad if pad else 'P=', 'o=0; e=0']
-    for s, n in bursts:
+    for bi, (s, n) in enumerate(bursts):
+        # the job is stopped and continued (job control, a debugger) before its last burst: it goes on and ends as it would have
+        if stopcont and bi == len(bursts) - 1: L.append('( sleep 0.3; kill -CONT $$ ) > /dev/null 2>&1 & kill -STOP $$')
         if s == 1: L.append('i=0; while [ $i -lt %d ]; do o=$((o+1)); printf "O%%05d%%s\\n" $o "$P"; i=$((i+1)); done' % n)
         else: L.append('i=0; while [ $i -lt %d ]; do e=$((e+1)); printf "E%%05d%%s\\n" $e "$P" >&2; i=$((i+1)); done' % n)
     if pipeline: L.append('yes | head -n 2 > /dev/null; seq 1 200000 | sed 2q > /dev/null')   # producers ended by their consumers going away, quietly
@@ -51,10 +53,10 @@ def mail_tokens(path):
     return tokens(tmp)
 
 
-def run_one(B, shim, wd, rq, bursts, exitcode=0, sig=0, pad=0, timeout=60, extra_vtodo=(), noalarm=False, linger=0, pipeline=False):
+def run_one(B, shim, wd, rq, bursts, exitcode=0, sig=0, pad=0, timeout=60, extra_vtodo=(), noalarm=False, linger=0, pipeline=False, stopcont=False):
     d = tempfile.mkdtemp(prefix='x', dir=wd)
     os.makedirs(d + '/cwd')
-    open(d + '/job.sh', 'w').write(job_script(d, bursts, exitcode, sig, pad, linger, pipeline))
+    open(d + '/job.sh', 'w').write(job_script(d, bursts, exitcode, sig, pad, linger, pipeline, stopcont))
     open(d + '/in.txt', 'w').write(rq.get('stdin', ''))
     if rq.get('mailrc'): open(d + '/mailrc', 'w').write('%d\n' % rq['mailrc'])
     sh = rq.get('shell', '/bin/sh') if not rq.get('nospawn') else '/nonexistent/sh'
